@@ -15,6 +15,12 @@ import (
 	"github.com/fatedier/frp/verif"
 )
 
+// Interfaces whose methods do not touch any frp table (metrics sinks, context
+// getters): calls through them are treated like library calls (assumption,
+// listed in the evidence).
+//
+//verif:effectfree-iface ~/server/metrics.ServerMetrics ~/pkg/util/net.ContextGetter
+
 //verif:guarded ControlManager mu ctlsByRunID
 //verif:guarded Control mu proxies portsUsedNum
 
@@ -60,6 +66,22 @@ func verif_RegisterWorkConn(ctl *Control, conn net.Conn) {
 
 // ---------------------------------------------------------------- C12: session table
 
+// Monitor invariant of the session table: the map exists and holds no nil session.
+//
+//verif:invariant ControlManager mu
+func (cm *ControlManager) verifInvSessions(id string) bool {
+	c, ok := cm.ctlsByRunID[id]
+	return cm.ctlsByRunID != nil && (!ok || c != nil)
+}
+
+//verif:contract ~/server.NewControlManager
+//verif:props C12
+func verif_NewControlManager(id string) {
+	cm := NewControlManager()
+	verif.Ensures(cm != nil && cm.verifInvSessions(id), "establishes_invariant")
+	verif.Ensures(!verif.Has(cm.ctlsByRunID, id), "empty")
+}
+
 // Add: the run id designates the new session from now on; the previous holder
 // (if any) is told it was replaced and is returned so that the caller can wait
 // for its teardown.
@@ -69,6 +91,7 @@ func verif_RegisterWorkConn(ctl *Control, conn net.Conn) {
 func verif_ControlManager_Add(cm *ControlManager, runID string, ctl *Control, q string) {
 	old0, had := cm.ctlsByRunID[runID]
 	tab0 := verif.Snap(cm.ctlsByRunID)
+	verif.Requires(ctl != nil, "session_nonnil")
 	verif.ResetEvents()
 	old := cm.Add(runID, ctl)
 	verif.Ensures(cm.ctlsByRunID[runID] == ctl, "id_designates_new_session")
